@@ -30,6 +30,8 @@ type ClosestScn struct {
 	DD      bool        `json:"dd"`
 	HasWord bool        `json:"hasWord"`
 	Word    S           `json:"word"`
+	Aliases [][]S       `json:"aliases"` // per command; never suggested or enumerated, but a word equal to one selects the command
+	Repeat  int         `json:"repeat"`  // C15: run on this many fresh parsers; the messages must coincide
 	Obs     *ClosestObs `json:"obs,omitempty"`
 }
 
@@ -42,6 +44,7 @@ type ClosestObs struct {
 	Word     S      `json:"word"`
 	Msg      S      `json:"msg"`
 	PanicMsg S      `json:"panicMsg"`
+	Distinct int    `json:"distinct"`
 }
 
 type nopCmd struct{}
@@ -105,6 +108,13 @@ func runClosest(sc *ClosestScn) *ClosestObs {
 			}
 			c.Hidden = sc.Hidden[i]
 			cmds = append(cmds, c)
+		}
+	}
+	if len(sc.Aliases) == len(cmds) {
+		for i, c := range cmds {
+			for _, a := range sc.Aliases[i] {
+				c.Aliases = append(c.Aliases, a.String())
+			}
 		}
 	}
 	var args []string
@@ -200,6 +210,18 @@ func init() {
 				die(2, "closest scenario: %v", err)
 			}
 			sc.Obs = runClosest(sc)
+			sc.Obs.Distinct = 1
+			if sc.Repeat > 1 {
+				first, _ := json.Marshal(sc.Obs)
+				seen := map[string]bool{string(first): true}
+				for i := 1; i < sc.Repeat; i++ {
+					o := runClosest(sc)
+					o.Distinct = 1
+					j, _ := json.Marshal(o)
+					seen[string(j)] = true
+				}
+				sc.Obs.Distinct = len(seen)
+			}
 			return sc
 		},
 		crash: func(line []byte, timeout bool, msg string) any {
@@ -271,10 +293,39 @@ func genClosest(r *rand.Rand, id int) *ClosestScn {
 		sc.Names = append(sc.Names, toS(w))
 		sc.Hidden = append(sc.Hidden, chance(r, 0.2))
 	}
+	tieWord := ""
+	if len(names) >= 1 && len(names) < 6 && chance(r, 0.12) {
+		// two names at the same distance from the word: n+"a", n+"b" and the word n+"c"
+		base := []rune(names[0])
+		if len(base) >= 3 {
+			stem := string(base[:len(base)-1])
+			second := stem + "q"
+			if !seen[second] && second != names[0] {
+				seen[second] = true
+				names = append(names, second)
+				sc.Names = append(sc.Names, toS(second))
+				sc.Hidden = append(sc.Hidden, false)
+				tieWord = stem + "j"
+			}
+		}
+	}
 	sc.HiddenTag = []S{}
+	sc.Aliases = [][]S{}
 	for range names {
 		sc.HiddenTag = append(sc.HiddenTag, S{})
+		al := []S{}
+		if chance(r, 0.2) {
+			for k, m := 0, 1+r.Intn(2); k < m; k++ {
+				a := genClosestName(r)
+				if !seen[a] && a != "" && !strings.HasPrefix(a, "-") {
+					seen[a] = true
+					al = append(al, toS(a))
+				}
+			}
+		}
+		sc.Aliases = append(sc.Aliases, al)
 	}
+	sc.Repeat = 1
 	if chance(r, 0.25) {
 		sc.ByTag = true
 		for i := range names {
@@ -304,6 +355,9 @@ func genClosest(r *rand.Rand, id int) *ClosestScn {
 			if w != "" && !strings.HasPrefix(w, "-") && !seen[w] {
 				break
 			}
+		}
+		if tieWord != "" && !seen[tieWord] {
+			w = tieWord
 		}
 		sc.Word = toS(w)
 	}
